@@ -78,6 +78,8 @@ impl Marker {
                 MarkEvent::NodeStart { kind, .. } => *kind = LuaSyntaxKind::None,
                 _ => unreachable!(),
             }
+            // the removed node will never get a NodeEnd, so it must not count as open
+            p.decr_mark_level();
             return CompleteMarker {
                 start: 0,
                 kind: LuaSyntaxKind::None,
@@ -97,6 +99,8 @@ impl Marker {
             }
             _ => unreachable!(),
         }
+        // the cancelled node will never get a NodeEnd, so it must not count as open
+        p.decr_mark_level();
 
         CompleteMarker {
             start: self.position,
